@@ -26,6 +26,9 @@ type c20rParser struct {
 	errs  *int
 }
 
+// c20rJsMode: entry point of the js parser used by the next parse (0 module, 1 type snippet, 2 expression snippet)
+var c20rJsMode int
+
 func c20rNew(name string) *c20rParser {
 	sink := new([]c20Ev)
 	errs := new(int)
@@ -51,7 +54,16 @@ func c20rNew(name string) *c20rParser {
 		s := new(js.TokenStream)
 		p := new(js.Parser)
 		p.Init(func(js.SyntaxError) bool { *errs++; return true }, lst)
-		return &c20rParser{func(ctx context.Context, src string) error { s.Init(src, lst); return p.ParseModule(ctx, s) }, sink, errs}
+		return &c20rParser{func(ctx context.Context, src string) error {
+			s.Init(src, lst)
+			switch c20rJsMode {
+			case 1:
+				return p.ParseTypeSnippet(ctx, s)
+			case 2:
+				return p.ParseExpressionSnippet(ctx, s)
+			}
+			return p.ParseModule(ctx, s)
+		}, sink, errs}
 	}
 	return nil
 }
@@ -152,14 +164,29 @@ func c20Reuse(c *Ctx) {
 			if len(second) > 3000 {
 				second = second[:3000]
 			}
+			mode1, mode2 := 0, 0
+			if name == "js" || name == "tm" {
+				// also SHORT second inputs (shorter than what the stream remembers of the first one)
+				switch c.Rng.Intn(6) {
+				case 0:
+					second = ""
+				case 1:
+					second = []string{"a", "x y", "1", " ", "a\nb"}[c.Rng.Intn(5)]
+				}
+			}
+			if name == "js" {
+				mode1, mode2 = c.Rng.Intn(3), c.Rng.Intn(3)
+			}
 			var evs2, evsF []c20Ev
 			var err2, errF error
 			firstFailed := false
 			r := c20sGuard(func(ctx context.Context, _ *c20sRun) {
 				*reused.sink = nil
+				c20rJsMode = mode1
 				firstFailed = reused.parse(ctx, first) != nil || *reused.errs > 0
 				*reused.errs = 0
 				*reused.sink = nil
+				c20rJsMode = mode2
 				err2 = reused.parse(ctx, second)
 				evs2 = *reused.sink
 				*reused.sink = nil
@@ -167,7 +194,7 @@ func c20Reuse(c *Ctx) {
 				errF = fresh.parse(ctx, second)
 				evsF = *fresh.sink
 			})
-			desc := fmt.Sprintf("%s: one Parser, first input %q, then second input %q", name, first, second)
+			desc := fmt.Sprintf("%s: one Parser and one TokenStream value, first input %q (entry %d), then second input %q (entry %d)", name, first, mode1, second, mode2)
 			if r.panicked || r.timeout {
 				if r.timeout {
 					timeouts++
